@@ -95,12 +95,13 @@ S2 = 2.0 / 27.0
 TOL0 = 1e-9
 ISCLOSE_ATOL = 1e-8                              # np.isclose(p, 0.0) in sample_from_probability_map
 SHOTS = 2000
-MAX_DIM = {"quick": 20000, "thorough": 50000}    # Fock-space dimension (Create builds a dense dim x dim operator)
+MAX_DIM = {"quick": 5000, "thorough": 50000}    # Fock-space dimension (Create builds a dense dim x dim operator)
 MAX_MEASURE_DIM = 3500                           # dense density matrix at a measurement: 3500^2 * 16 B = 196 MB
 BIG_DIM = 5000                                   # cases above this dimension are rationed per shard
 
 ONE_Q = ("h", "x", "y", "z", "rx", "ry", "rz", "u", "p")
 NPAR = {"h": 0, "x": 0, "y": 0, "z": 0, "rx": 1, "ry": 1, "rz": 1, "u": 3, "p": 1}
+SELFTEST_MODE = {"on": False}   # VERIF_C19_NO_EXOTIC=1: leave out the findings of the unchanged tree (mutation self-test aid)
 EXOTIC = ("clbit-permuted", "multi-qubit-body", "else-body")
 EXOTIC_KEY = {
     "clbit-permuted": "if_test-clbit-index-used-as-measurement-position",
@@ -435,7 +436,11 @@ def run_program(pq, prog, d, cutoff, shots=None, seed=None):
     except MemoryError as e:
         ph.error = ("resource", "MemoryError: %s" % e)
     except Exception as e:  # the call under test
-        ph.error = ("execute-raises:%s" % type(e).__name__, "%s: %s" % (type(e).__name__, str(e)[:300]))
+        root = e
+        while root.__cause__ is not None:
+            root = root.__cause__
+        cause = "" if root is e else " [root cause %s: %s]" % (type(root).__name__, str(root)[:160])
+        ph.error = ("execute-raises:%s" % type(e).__name__, "%s%s: %s" % (type(e).__name__, cause, str(e)[:300]))
     return ph
 
 
@@ -474,7 +479,10 @@ def drop_metric(br):
 
 
 def compare(ref_branches, code, k, tol_p, tol_s, slack):
-    """Returns dict(dev, dev_s, allowance, problems[list of (kind, message)])."""
+    """Returns dict(dev, dev_s, allowance, problems[list of (kind, message)]).
+    k = number of entangling gates *before the last measurement*: PostSelectPhotons leaves the
+    state unnormalised and the next measurement folds that norm into the branch frequency, so
+    only those heralds show up in the code-space mass."""
     S = sum(code.values())
     out = {"S": S, "problems": [], "dev": 0.0, "dev_s": 0.0, "allow": 0.0, "n": 0}
     if S <= 0.0:
@@ -517,7 +525,7 @@ class Ctx:
         self.c = {k: 0 for k in REQUIRED}
         self.c.update({"circuits": 0, "encode_calls": 0, "execute_calls": 0, "emitted_angle_comparisons": 0,
                        "finite_shot_runs": 0, "if_test_effective_cases": 0, "cases_with_record_below_branch_filter": 0,
-                       "comparisons_failed": 0, "unshrunk_failures": 0, "shrunk_failures": 0, "big_cases_rationed": 0,
+                       "comparisons_failed": 0, "unshrunk_failures": 0, "shrunk_failures": 0, "big_cases_rationed": 0, "cases_skipped_by_pacing": 0,
                        "resource_skips": 0, "exotic_cases": 0, "shrink_runs": 0, "cz_blocks_recognised": 0,
                        "max_dev_exact_over_tol": 0.0, "max_dev_emitted_over_tol": 0.0, "max_dev_exact": 0.0,
                        "max_dev_emitted": 0.0, "max_success_dev_exact": 0.0, "max_success_dev_emitted": 0.0,
@@ -531,14 +539,15 @@ class Ctx:
         self.samples = []
         self.evals = 0
         self.decoder_disagree = []
+        self.worst_emitted = (0.0, None)
 
     def viol(self, mech, msg, case):
         if len(self.violations) < 60:
             self.violations.append({"mechanism": mech, "message": msg, "case": case})
 
 
-def note(ctx, which, cmp, tol_p, tol_s):
-    """Counters of one comparison; the max_* deviations are taken over comparisons that passed."""
+def note(ctx, which, cmp, tol_p, tol_s, clean=True):
+    """Counters of one comparison; the max_* deviations are taken over cases without any problem."""
     ctx.c["comparisons"] += 1
     ctx.c["records_compared"] += cmp["n"]
     ctx.c["success_probability_checks"] += 1
@@ -547,6 +556,7 @@ def note(ctx, which, cmp, tol_p, tol_s):
         ctx.c["cases_with_record_below_branch_filter"] += 1
     if cmp["problems"]:
         ctx.c["comparisons_failed"] += 1
+    if cmp["problems"] or not clean:
         return
     ctx.c["max_dev_%s" % which] = max(ctx.c["max_dev_%s" % which], cmp["dev"])
     ctx.c["max_success_dev_%s" % which] = max(ctx.c["max_success_dev_%s" % which], cmp["dev_s"])
@@ -591,6 +601,8 @@ def evaluate(pq, ctx, case, tier="quick", count=True):
         cutoff = max(cutoff, N + 1)
     n_post = sum(1 for i in prog.instructions if isinstance(i, pq.PostSelectPhotons))
     n_meas = f["n_meas"]
+    last_meas = max(i for i, o in enumerate(doc["ops"]) if o["g"] == "measure")
+    k_seen = sum(1 for o in doc["ops"][:last_meas] if o["g"] in ("cz", "cx"))   # heralds folded into frequencies
     ctx.c["max_fock_dim"] = max(ctx.c["max_fock_dim"], dim)
 
     # ---- (B) the program as emitted
@@ -601,7 +613,9 @@ def evaluate(pq, ctx, case, tier="quick", count=True):
             ctx.c["resource_skips"] += 1
             ctx.obs.add("MemoryError at fock dimension %d (dense creation operator): case skipped" % dim)
             return [("skipped", ph.error[1])]
-        return [ph.error]
+        if k == 0:
+            return [ph.error]
+        problems.append((ph.error[0] + "[emitted-angles]", ph.error[1]))
     code, leak, bad = split_code_space(dre, ph.map, n_meas, ctx)
     if bad:
         problems.append(("outcome-length", "branch outcome %r does not have 2 entries per measure instruction (%d)" % (bad[0], n_meas)))
@@ -621,13 +635,12 @@ def evaluate(pq, ctx, case, tier="quick", count=True):
     if tol_p is None:      # angles are not roundings of the KLM angles: only the sharp tolerance applies
         tol_p, tol_s = sharp, sharp
     slack = 1e-6 + (tol_s if k else 0.0)
-    cmpB = compare(ref, code, k, tol_p, tol_s, slack)
-    if count:
-        note(ctx, "emitted" if k else "exact", cmpB, tol_p, tol_s)
-        if k:
-            ctx.c["max_tol_emitted"] = max(ctx.c["max_tol_emitted"], tol_p)
-    for kind, msg in cmpB["problems"]:
-        problems.append((kind + ("" if k == 0 else "[emitted-angles]"), msg))
+    pending = []
+    if not ph.error:
+        cmpB = compare(ref, code, k_seen, tol_p, tol_s, slack)
+        pending.append(("emitted" if k else "exact", cmpB, tol_p, tol_s))
+        for kind, msg in cmpB["problems"]:
+            problems.append((kind + ("" if k == 0 else "[emitted-angles]"), msg))
 
     # ---- (A) exact-angle variant
     if k:
@@ -635,12 +648,11 @@ def evaluate(pq, ctx, case, tier="quick", count=True):
         pe = run_program(pq, exact_prog, d, cutoff)
         if pe.error:
             if pe.error[0] != "resource":
-                problems.append(pe.error)
+                problems.append((pe.error[0] + "[exact-angles]", pe.error[1]))
         else:
             code_e, leak_e, bad_e = split_code_space(dre, pe.map, n_meas, ctx)
-            cmpA = compare(ref, code_e, k, sharp, sharp, 1e-6)
-            if count:
-                note(ctx, "exact", cmpA, sharp, sharp)
+            cmpA = compare(ref, code_e, k_seen, sharp, sharp, 1e-6)
+            pending.append(("exact", cmpA, sharp, sharp))
             for kind, msg in cmpA["problems"]:
                 extra_note = (" [" + ",".join(sorted(set(notes))) + "]") if notes else ""
                 problems.append((kind + "[exact-angles]", msg + extra_note))
@@ -648,6 +660,15 @@ def evaluate(pq, ctx, case, tier="quick", count=True):
         out, why = ctx.decoder_disagree[0]
         problems.append(("get_bosonic_qubit_samples-disagrees", "get_bosonic_qubit_samples(%r) %s" % (list(out), why)))
         ctx.decoder_disagree = []
+
+    if count:
+        for which, cmp_, tp, ts in pending:
+            note(ctx, which, cmp_, tp, ts, clean=not problems)
+        if k and not problems and not ph.error:
+            ctx.c["max_tol_emitted"] = max(ctx.c["max_tol_emitted"], tol_p)
+            if cmpB["dev"] > ctx.worst_emitted[0]:
+                ctx.worst_emitted = (cmpB["dev"], {"note": "largest deviation of an emitted (rounded-angle) program from the qubit reference in this shard",
+                                                   "deviation": cmpB["dev"], "tolerance": tol_p, "circuit": doc})
 
     # ---- finite shots: support only
     if case.get("shots") and not problems:
@@ -698,6 +719,15 @@ def judge(pq, ctx, case, tier):
         return
     kinds = sorted({p[0] for p in problems})
     msg = "; ".join(p[1] for p in problems[:3])
+    # 0. the emitted program raises because a condition meets a measured rail pair outside the code space
+    #    (leak of the rounded KLM angles, ~1e-7), while the exact-angle variant of the same program is fine
+    if kinds == ["execute-raises:PiquassoException[emitted-angles]"] and "Unexpected outcomes" in msg and f["if"] and f["k"]:
+        if SELFTEST_MODE["on"]:
+            ctx.obs.add("selftest mode: finding if_test-condition-raises-on-leaked-outcome-of-rounded-cz of the unchanged tree seen and not reported")
+            return
+        ctx.viol("if_test-condition-raises-on-leaked-outcome-of-rounded-cz",
+                 "%s; the same program with exact KLM angles agrees with the qubit reference" % msg, case)
+        return
     # 1. shapes of conditional blocks the encoder does not translate faithfully
     if f["exotic"]:
         alt = realign(doc)
@@ -789,11 +819,13 @@ def realign_keep_blocks(doc):
 def plan(tier, seed):
     import os
 
-    no_exotic = bool(os.environ.get("VERIF_C19_NO_EXOTIC"))   # self-test aid: leaves out the three if_test shapes
-    specs = []                                                 # the unchanged encoder mistranslates
+    # self-test aid: leaves out the three if_test shapes the unchanged encoder mistranslates and does not report
+    # the leaked-outcome crash, so that rc=1 of a mutant run is due to the mutant
+    no_exotic = bool(os.environ.get("VERIF_C19_NO_EXOTIC"))
+    specs = []
     if tier == "quick":
         # (name, forced number of entangling gates or None, cases, time budget s, big cases allowed)
-        rows = [("k2-%d" % i, 2, 80, 45, 1) for i in range(2)] + [("k1-%d" % i, 1, 200, 45, 0) for i in range(2)] + \
+        rows = [("k2-%d" % i, 2, 80, 45, 0) for i in range(2)] + [("k1-%d" % i, 1, 200, 45, 0) for i in range(2)] + \
                [("mixed-%d" % i, None, 500, 45, 0) for i in range(6)] + [("k0-%d" % i, 0, 600, 35, 0) for i in range(2)]
     else:
         rows = [("k3-%d" % i, 3, 40, 280, 8) for i in range(2)] + [("k2-%d" % i, 2, 800, 290, 6) for i in range(2)] + \
@@ -802,8 +834,12 @@ def plan(tier, seed):
     for i, (name, fk, n, budget, big) in enumerate(rows):
         specs.append({"name": name, "shard": i, "force_k": fk, "count": n, "budget": budget, "big": big,
                       "no_exotic": no_exotic,
+                      # the simulator allocates dense dim x dim arrays per Create / measurement: keep them on the
+                      # heap (no mmap/munmap + page-fault storm, no THP compaction stalls); 2 threads per shard
                       "env": {"OMP_NUM_THREADS": "2", "OPENBLAS_NUM_THREADS": "2", "MKL_NUM_THREADS": "2",
-                              "NUMBA_NUM_THREADS": "2"}})
+                              "NUMBA_NUM_THREADS": "2", "NUMPY_MADVISE_HUGEPAGE": "0",
+                              "MALLOC_MMAP_THRESHOLD_": "33554432", "MALLOC_TRIM_THRESHOLD_": "4294967296",
+                              "MALLOC_TOP_PAD_": "268435456"}})
     return specs
 
 
@@ -816,10 +852,14 @@ def run_shard(spec):
     rng = np.random.default_rng([int(spec["seed"]), 19, int(spec["shard"])])
     tier = spec["tier"]
     ctx = Ctx()
+    SELFTEST_MODE["on"] = bool(spec.get("no_exotic"))
     t0 = time.time()
+    c0 = time.process_time()
     big_left = int(spec.get("big", 0))
+    spent, units_done = 0.0, 0.0
+    budget = float(spec["budget"])     # CPU seconds of this process; wall is capped at 2.5x (shared machine)
     for i in range(int(spec["count"])):
-        if time.time() - t0 > float(spec["budget"]):
+        if time.process_time() - c0 > budget or time.time() - t0 > 2.5 * budget:
             ctx.obs.add("a shard stopped by its time budget before its case count")
             break
         case = gen_case(rng, tier, allow_exotic=not spec.get("no_exotic"), force_k=spec.get("force_k"))
@@ -835,12 +875,21 @@ def run_shard(spec):
             ctx.c["resource_skips"] += 1
             continue
         if fock_dim(d, cutoff) > BIG_DIM:     # rationed, and only early in the shard (one such case takes 10-60 s)
-            if big_left <= 0 or time.time() - t0 > 0.6 * float(spec["budget"]):
+            if big_left <= 0 or time.process_time() - c0 > 0.6 * budget:
                 ctx.c["big_cases_rationed"] += 1
                 continue
             big_left -= 1
         if fock_dim(d, cutoff) > 1500:
             case["shots"] = 0
+        # adaptive pacing: cost ~ dimension^1.5 x instructions x runs; skip what would overrun the budget at the
+        # rate observed so far in this shard (the machine is shared; wall-clock only limits work, never decides)
+        units = fock_dim(d, cutoff) ** 1.5 * (len(doc["ops"]) + 6) * (2 if f["k"] else 1)
+        remaining = min(budget - (time.process_time() - c0), 2.5 * budget - (time.time() - t0))
+        est = units * (spent / units_done) if units_done > 0 else 0.0
+        if est > 5.0 and est > 1.5 * max(remaining, 1.0):
+            ctx.c["cases_skipped_by_pacing"] += 1
+            continue
+        t_case = time.process_time()
         ctx.evals += 1
         ctx.c["circuits"] += 1
         ctx.by_qubits[str(f["nq"])] = ctx.by_qubits.get(str(f["nq"]), 0) + 1
@@ -862,11 +911,15 @@ def run_shard(spec):
             ctx.c["if_test_effective_cases"] += 1 if eff else 0
         before = ctx.c["comparisons"]
         judge(pq, ctx, case, tier)
+        spent += time.process_time() - t_case
+        units_done += units
         if ctx.c["comparisons"] > before:
             ctx.classes.add(class_key(doc, f))
             if len(ctx.samples) < 2 and (f["if"] or f["k"]) and i > 3:
                 ctx.samples.append({"circuit": doc, "cutoff": cutoff, "modes": d, "photons": N,
                                     "reference_record_distribution": {str(k): v for k, v in Q.record_distribution(doc).items()}})
+    if ctx.worst_emitted[1] is not None:
+        ctx.samples.insert(0, ctx.worst_emitted[1])
     counters = dict(ctx.c)
     counters["circuits_by_qubits"] = ctx.by_qubits
     counters["circuits_by_entangling_gates"] = ctx.by_ent
